@@ -126,6 +126,13 @@ def check(ctx):
 
 
 def check_config(ctx, F, tag, views=True):
+    if views:
+        import c13
+        from core import Relabel
+        c13.check_config(Relabel(ctx, {"C13.R2.length-formulas-agree": "C14.R5.length-formulas-agree"}), F, tag)
+        import c12
+        c12.check_config(Relabel(ctx, {"C12.R3.flushed-buffer-cleared": "C14.R6.writer.flushed-buffer-cleared", "C12.R3.overflow-carried-back": "C14.R6.writer.overflow-carried-back",
+                                       "C12.R2.": "C14.R6.writer."}), F, tag)
     partial_calls = []
     copy_sites = []
     for b in F.all_bodies():
